@@ -700,6 +700,8 @@ def family_reject():
         (['C05'], 'provider and struct provider of one type', 'B', 'NewA, wire.Struct(new(A)), NewB'),
         (['C05'], 'same set along two paths', 'B', 'wire.NewSet(SetA), SetA, NewB'),
         (['C05'], 'injector argument and provider of one type', 'B', 'NewA, NewB', 'a A'),
+        (['C05'], 'blank injector argument and provider of one type', 'B', 'NewA, NewB', '_ A'),
+        (['C05'], 'blank injector argument and a set providing its type', 'B', 'SetA, NewB', '_ A'),
         (['C06'], 'missing leaf', 'B', 'NewB'),
         (['C06'], 'pointer counterpart does not satisfy value', 'C', 'NewC'),
         (['C06', 'C11'], 'implementation does not satisfy interface without binding', 'I', 'NewC'),
@@ -752,6 +754,37 @@ def family_packages():
                          '\tc, err := InjectCtx()\n\tvrt.A("C02", err == nil && c != nil && c.ID == 4343, "injector returning a type of an external module")\n}\n'),
     }
     specs.append(RawSpec(files, 'providers and types from external modules (one import path with the text vendor/ inside an element)', family='packages', ext_modules=ext))
+    # a set declared three packages away: app -> feature.Set -> storage.Set (storage is not imported by app)
+    files = {
+        'providers.go': ('package {PKG}\n\nimport (\n\t"example.com/corpus/vrt"\n\t"example.com/corpus/{PKG}/feature"\n)\n\ntype App struct{ ID int }\n\n'
+                         'func NewApp(s feature.Service) App {\n\tid, _ := vrt.Call(0, false, s.ID)\n\treturn App{ID: id}\n}\n'),
+        'wire.go': ('//go:build wireinject\n// +build wireinject\n\npackage {PKG}\n\nimport (\n\t"github.com/google/wire"\n\t"example.com/corpus/{PKG}/feature"\n)\n\nfunc Inject() App {\n\tpanic(wire.Build(feature.Set, NewApp))\n}\n'),
+        'zz_driver.go': ('//go:build !wireinject\n// +build !wireinject\n\npackage {PKG}\n\nimport "example.com/corpus/vrt"\n\nfunc VDrive() {\n'
+                         '\tspec := &vrt.Spec{Nodes: []vrt.Node{{Name: "NewApp", Kind: vrt.KFunc, Params: []vrt.Ref{{Node: 1}}}, {Name: "feature.NewService", Kind: vrt.KFunc, Params: []vrt.Ref{{Node: 2}}}, {Name: "storage.NewStore", Kind: vrt.KFunc, Params: []vrt.Ref{{Node: 3}}}, {Name: "deep.NewCfg", Kind: vrt.KFunc}}, Result: []vrt.Ref{{Node: 0}}, ArgIDs: make([][]int, 4)}\n'
+                         '\tvrt.Reset()\n\tres := Inject()\n\tvrt.Check(spec, vrt.Outcome{Result: []int{res.ID}, CleanupNil: true})\n}\n'),
+    }
+    extra = {
+        'feature': {'feature.go': ('package feature\n\nimport (\n\t"example.com/corpus/vrt"\n\t"example.com/corpus/{PKG}/storage"\n\t"github.com/google/wire"\n)\n\ntype Service struct{ ID int }\n\n'
+                                    'func NewService(s storage.Store) Service {\n\tid, _ := vrt.Call(1, false, s.ID)\n\treturn Service{ID: id}\n}\n\nvar Set = wire.NewSet(storage.Set, NewService)\n')},
+        'storage': {'storage.go': ('package storage\n\nimport (\n\t"example.com/corpus/vrt"\n\t"example.com/corpus/{PKG}/storage/deep"\n\t"github.com/google/wire"\n)\n\ntype Store struct{ ID int }\n\n'
+                                    'func NewStore(c deep.Cfg) Store {\n\tid, _ := vrt.Call(2, false, c.ID)\n\treturn Store{ID: id}\n}\n\nvar Set = wire.NewSet(deep.Set, NewStore)\n')},
+        'storage/deep': {'deep.go': ('package deep\n\nimport (\n\t"example.com/corpus/vrt"\n\t"github.com/google/wire"\n)\n\ntype Cfg struct{ ID int }\n\nfunc NewCfg() Cfg {\n\tid, _ := vrt.Call(3, false)\n\treturn Cfg{ID: id}\n}\n\nvar Set = wire.NewSet(NewCfg)\n')},
+    }
+    specs.append(RawSpec(files, 'provider sets nested across four packages (the inner sets are declared in packages the injector package does not import)', family='packages', extra_pkgs=extra))
+    # homonymous packages: the set the injector names lacks a source that the other package's equally named set has
+    def store(node, with_dsn):
+        dsn = 'func DefaultDSN() cfg.DSN { return cfg.DSN{ID: %d} }\n\n' % (900 + node) if with_dsn else ''
+        items = 'DefaultDSN, New' if with_dsn else 'New'
+        return ('package store\n\nimport (\n\t"example.com/corpus/{PKG}/cfg"\n\t"github.com/google/wire"\n)\n\ntype Store%d struct{ ID int }\n\n%sfunc New(d cfg.DSN) Store%d { return Store%d{ID: d.ID} }\n\nvar Defaults = wire.NewSet(%s)\n' % (node, dsn, node, node, items))
+    files = {
+        'providers.go': 'package {PKG}\n',
+        'wire.go': ('//go:build wireinject\n// +build wireinject\n\npackage {PKG}\n\nimport (\n\t"github.com/google/wire"\n\tbilling "example.com/corpus/{PKG}/billing/store"\n\tusers "example.com/corpus/{PKG}/users/store"\n)\n\n'
+                    'func InitBilling() billing.Store1 {\n\tpanic(wire.Build(billing.Defaults))\n}\n\nfunc InitUsers() users.Store2 {\n\tpanic(wire.Build(users.Defaults))\n}\n'),
+    }
+    extra = {'cfg': {'cfg.go': 'package cfg\n\ntype DSN struct{ ID int }\n'}, 'billing/store': {'store.go': store(1, True)}, 'users/store': {'store.go': store(2, False)}}
+    sp = RawSpec(files, 'must be rejected: the named set lacks a source that an equally named set of an equally named package has', expect='reject', reject_props=['C06'], family='packages', extra_pkgs=extra)
+    sp.diag_must_contain = 'DSN'
+    specs.append(sp)
     # one provider set with value expressions (composite literals referring to other packages) consumed by two packages
     conf = ('package conf\n\nimport (\n\t"time"\n\n\t"github.com/google/wire"\n)\n\ntype Level int\n\nconst Debug Level = 3\n\ntype Options struct {\n\tTimeout time.Duration\n\tLevel   Level\n\tTags    []string\n}\n\n'
             'var Set = wire.NewSet(wire.Value(Options{Timeout: 5 * time.Second, Level: Debug, Tags: []string{"a", "b"}}), wire.Value(&Extra{Opt: Options{Level: Debug}}))\n\ntype Extra struct{ Opt Options }\n')
